@@ -62,12 +62,14 @@ fn check_message(c: u8, n: u8, v: u16, mon: &mut Cc14Mon, rng: &mut Rng, hist: &
         let st: [StructuredShortMessage; 2] = m.to_short_messages();
         let raw2: [RawShortMessage; 2] = m.into();
         let st2: [StructuredShortMessage; 2] = m.into();
+        let fo: [crate::carriers::Foreign; 2] = m.to_short_messages();
+        let fo_ok = fo[0].to_bytes() == raw[0].to_bytes() && fo[1].to_bytes() == raw[1].to_bytes();
         (
             m,
             (m.channel(), m.msb_controller_number(), m.lsb_controller_number(), m.value()),
             [raw[0].to_bytes(), raw[1].to_bytes()],
             [st[0].to_bytes(), st[1].to_bytes()],
-            raw2 == raw && st2 == st,
+            raw2 == raw && st2 == st && fo_ok,
         )
     });
     rep.evaluations += 1;
